@@ -826,6 +826,161 @@ def classify(ctx, c, r, stats, label):
     return bad
 
 
+
+# ------------------------------------------------------------------------------------------------
+# round 5: TRANSFORMED scenes.  One big rectangle (larger than the canvas in at least one direction) under a rotation / skew / general
+# affine transform that makes it cross canvas edges is the only clipPath child, or the white content of a mask, of an opaque rectangle
+# that fills the canvas.  The expected alpha is computed here from the shape and the transform: a pixel whose centre lies at least
+# 1.5 px inside the mapped parallelogram must stay 255, one at least 1.5 px outside the line of some edge must be 0; pixels
+# nearer to an edge are not judged (-1).  Half of the cases are steered so that the images of two OPPOSITE corners of the rectangle both fall
+# off one side of the canvas although the shape covers part of it (what a two-corner bounding-box cull would get wrong); the rest is random.
+XS = 48
+
+
+def _xf_matrix(rng):
+    k = rng.below(5)
+    if k <= 1:
+        ang = rng.choice([30, 45, 60, 120, 135, 150, 210, 225, 315, 17, 73, 101]) if k == 0 else rng.below(360)
+        px, py = rng.below(2 * XS) - XS // 2, rng.below(2 * XS) - XS // 2
+        c, s_ = math.cos(math.radians(ang)), math.sin(math.radians(ang))
+        return "rotate(%d %d %d)" % (ang, px, py), (c, s_, -s_, c, px - c * px + s_ * py, py - s_ * px - c * py)
+    if k == 2:
+        ang = rng.choice([-60, -45, -30, 30, 45, 60])
+        t = math.tan(math.radians(ang))
+        return ("skewX(%d)" % ang, (1, 0, t, 1, 0, 0)) if rng.below(2) else ("skewY(%d)" % ang, (1, t, 0, 1, 0, 0))
+    if k == 3:
+        ang = rng.below(360)
+        c, s_ = math.cos(math.radians(ang)), math.sin(math.radians(ang))
+        sx, sy = rng.choice([0.5, 1, 1.5, 2]), rng.choice([0.5, 1, 1.5])
+        tx, ty = rng.below(XS), rng.below(XS)
+        return "translate(%d %d) rotate(%d) scale(%s %s)" % (tx, ty, ang, sx, sy), (c * sx, s_ * sx, -s_ * sy, c * sy, tx, ty)
+    m = [rng.choice([-1.5, -1, -0.5, 0.5, 1, 1.5]), rng.choice([-1, -0.5, 0, 0.5, 1]), rng.choice([-1, -0.5, 0, 0.5, 1]), rng.choice([-1.5, -1, 0.5, 1, 1.5]),
+         rng.below(XS), rng.below(XS)]
+    if abs(m[0] * m[3] - m[1] * m[2]) < 0.25:
+        m[1] = 0
+    return "matrix(%s)" % " ".join(P.num(v) for v in m), tuple(m)
+
+
+def gen_xform_scene(rng, steer):
+    for _ in range(200):
+        ttext, m = _xf_matrix(rng)
+        w, h = 30 + rng.below(220), 30 + rng.below(220)
+        x, y = rng.below(120) - 90, rng.below(120) - 90
+        mp = lambda px, py: (m[0] * px + m[2] * py + m[4], m[1] * px + m[3] * py + m[5])
+        poly = [mp(x, y), mp(x + w, y), mp(x + w, y + h), mp(x, y + h)]
+        area = sum(poly[i][0] * poly[(i + 1) % 4][1] - poly[(i + 1) % 4][0] * poly[i][1] for i in range(4))
+        if area < 0:
+            poly.reverse()
+        exp = []
+        for j in range(XS):
+            for i in range(XS):
+                cx, cy = i + 0.5, j + 0.5
+                ds = []
+                for e in range(4):
+                    (ax, ay), (bx, by) = poly[e], poly[(e + 1) % 4]
+                    ln = math.hypot(bx - ax, by - ay)
+                    ds.append(((bx - ax) * (cy - ay) - (by - ay) * (cx - ax)) / ln if ln > 1e-9 else -1e9)
+                d = min(ds)
+                exp.append(255 if d >= 1.5 else 0 if d <= -1.5 else -1)
+        n_in = exp.count(255)
+        if n_in < 40:
+            continue
+        a, c = poly[0], poly[2]       # images of two opposite corners (either diagonal: the same for the other pair by symmetry of the test below)
+        def off(p, q):
+            return (max(p[0], q[0]) < -1 or max(p[1], q[1]) < -1 or min(p[0], q[0]) > XS + 1 or min(p[1], q[1]) > XS + 1)
+        diag_off = off(mp(x, y), mp(x + w, y + h)) or off(mp(x + w, y), mp(x, y + h))
+        if steer and not diag_off:
+            continue
+        edges = sum(1 for k_, v in enumerate(exp) if v == 255 and (k_ % XS in (0, XS - 1) or k_ // XS in (0, XS - 1)))
+        kind = rng.below(4)
+        fill = rng.choice(['#ffffff', '#ff0000', '#123456'])
+        shape = '<rect x="%d" y="%d" width="%d" height="%d"%%s/>' % (x, y, w, h)
+        tags = ['diag-corners-off-canvas'] if diag_off else []
+        if kind == 0:
+            defs = '<clipPath id="c">%s</clipPath>' % (shape % (' transform="%s"' % ttext))
+            attr = 'clip-path="url(#c)"'
+            tags.append('clip-child-transform')
+        elif kind == 1:
+            defs = '<clipPath id="c" transform="%s">%s</clipPath>' % (ttext, shape % '')
+            attr = 'clip-path="url(#c)"'
+            tags.append('clippath-transform')
+        elif kind == 2:
+            defs = ('<mask id="m" maskUnits="userSpaceOnUse" x="-500" y="-500" width="1000" height="1000">%s</mask>'
+                    % (shape % (' fill="#ffffff" transform="%s"' % ttext)))
+            attr = 'mask="url(#m)"'
+            tags.append('mask-content-transform')
+        else:
+            defs = ('<mask id="m" maskUnits="userSpaceOnUse" x="-500" y="-500" width="1000" height="1000"><g transform="%s">%s</g></mask>'
+                    % (ttext, shape % ' fill="#ffffff"'))
+            attr = 'mask="url(#m)"'
+            tags.append('mask-group-transform')
+        tags.append(ttext.split('(')[0])
+        if edges:
+            tags.append('inside-touches-canvas-edge')
+        doc = ('<svg %s width="%d" height="%d"><defs>%s</defs><rect width="%d" height="%d" fill="%s" %s/></svg>' % (P.NS, XS, XS, defs, XS, XS, fill, attr))
+        return dict(doc=doc, expected=exp, tags=tags)
+    return None
+
+
+# round 5: elements WITHOUT a bounding box (stroked horizontal / vertical lines: zero-area fill box) under userSpaceOnUse masks and clip paths,
+# alone or sharing the definition with regular rectangles in either order.  Pixel-aligned (integer coordinates, even stroke widths), so the expected
+# alpha is exact: (union of the users' painted rectangles) AND mask region AND white content / clip rectangle, computed from the SOURCE document.
+def gen_bboxless_scene(rng):
+    rect_of = lambda: (rng.below(XS - 12), rng.below(XS - 12), 4 + rng.below(20), 4 + rng.below(20))
+    cx, cy, cw, ch = rng.choice([(0, 0, XS, XS), (-10, -10, 100, 100), rect_of(), (2, 2, XS - 6, XS - 8)])
+    use_mask = rng.below(3) != 0
+    tags = []
+    if use_mask:
+        rx, ry, rw, rh = rng.choice([(-20, -20, 200, 200), (0, 0, XS, XS), (4, 6, XS - 10, XS - 12)])
+        mt = rng.choice(['', ' mask-type="alpha"', ' style="mask-type:luminance"'])
+        cu = rng.choice(['', ' maskContentUnits="userSpaceOnUse"'])
+        defs = ('<mask id="d" maskUnits="userSpaceOnUse"%s x="%d" y="%d" width="%d" height="%d"%s><rect x="%d" y="%d" width="%d" height="%d" fill="#ffffff"/></mask>'
+                % (cu, rx, ry, rw, rh, mt, cx, cy, cw, ch))
+        attr = 'mask="url(#d)"'
+        tags.append('mask-userSpaceOnUse')
+    else:
+        rx, ry, rw, rh = -1000, -1000, 4000, 4000
+        defs = '<clipPath id="d"%s><rect x="%d" y="%d" width="%d" height="%d"/></clipPath>' % (rng.choice(['', ' clipPathUnits="userSpaceOnUse"']), cx, cy, cw, ch)
+        attr = 'clip-path="url(#d)"'
+        tags.append('clip-userSpaceOnUse')
+    kinds = rng.choice([['line'], ['line', 'rect'], ['rect', 'line'], ['line', 'line'], ['rect', 'line', 'rect'], ['line', 'rect', 'line']])
+    tags.append("-then-".join(kinds))
+    body, painted = '', []
+    for kd in kinds:
+        col = rng.choice(['#0000ff', '#ff0000', '#00c000', '#000000'])
+        if kd == 'rect':
+            x, y, w, h = rect_of()
+            body += '<rect x="%d" y="%d" width="%d" height="%d" fill="%s" %s/>' % (x, y, w, h, col, attr)
+            painted.append((x, y, x + w, y + h))
+            continue
+        sw = rng.choice([2, 4, 6, 8])
+        a0 = rng.below(XS - 8)
+        a1 = a0 + 4 + rng.below(XS - a0 - 4)
+        c = sw // 2 + rng.below(XS - sw)
+        horiz = rng.below(2) == 0
+        form = rng.below(3)
+        if form == 0:
+            el = '<line x1="%d" y1="%d" x2="%d" y2="%d" stroke="%s" stroke-width="%d" %%s/>' % (((a0, c, a1, c) if horiz else (c, a0, c, a1)) + (col, sw))
+        elif form == 1:
+            el = '<path d="M %d %d %s %d" fill="none" stroke="%s" stroke-width="%d" %%s/>' % (((a0, c, 'H', a1) if horiz else (c, a0, 'V', a1)) + (col, sw))
+        else:
+            el = '<polyline points="%d,%d %d,%d" stroke="%s" stroke-width="%d" %%s/>' % (((a0, c, a1, c) if horiz else (c, a0, c, a1)) + (col, sw))
+        if rng.below(4) == 0:
+            body += '<g %s>%s</g>' % (attr, el % '')
+            tags.append('line-in-group')
+        else:
+            body += el % attr
+        painted.append((a0, c - sw // 2, a1, c + sw // 2) if horiz else (c - sw // 2, a0, c + sw // 2, a1))
+    tags.append('bbox-less-user')
+    exp = []
+    for j in range(XS):
+        for i in range(XS):
+            on = any(l <= i < r and t <= j < b for l, t, r, b in painted) and rx <= i < rx + rw and ry <= j < ry + rh and cx <= i < cx + cw and cy <= j < cy + ch
+            exp.append(255 if on else 0)
+    doc = '<svg %s width="%d" height="%d"><defs>%s</defs>%s</svg>' % (P.NS, XS, XS, defs, body)
+    return dict(doc=doc, expected=exp, tags=tags, what='bbox-less users of a userSpaceOnUse %s' % ('mask' if use_mask else 'clip path'))
+
+
 def run(ctx):
     rng = ctx.rng
     quick = ctx.tier == 'quick'
@@ -990,6 +1145,34 @@ def run(ctx):
             ctx.violation(text, rep)
     ctx.cov['exact_scenes']['known_F16_hits'] = f16_exact
 
+    # ============================================================== round 5: transformed clip children / mask content crossing the canvas edges
+    xf = [sc for sc in (gen_xform_scene(rng, j % 2 == 0) for j in range(120 if quick else 1200)) if sc]
+    xf += [gen_bboxless_scene(rng) for _ in range(80 if quick else 800)]
+    xfouts = ctx.rvh_batch(binp, 'c15-pix', ["-\t%s\t%d\t%d" % (sc['doc'], XS, XS) for sc in xf])
+    xf_hist = {}
+    xf_shown = 0
+    for sc, o in zip(xf, xfouts):
+        r = P.jload(o)
+        for t in sc['tags']:
+            xf_hist[t] = xf_hist.get(t, 0) + 1
+        if 'a' not in r:
+            if xf_shown < 3:
+                xf_shown += 1
+                ctx.violation("transformed scene failed to parse / render: %s" % str(r)[:160], dict(op='c15-xform', doc=sc['doc'], expected=sc['expected'], features=sc['tags']))
+            continue
+        ctx.note_case("xform|" + sc['doc'], nontrivial=255 in sc['expected'] and 0 in sc['expected'])
+        lost = [i for i, (a, e) in enumerate(zip(r['a'], sc['expected'])) if e == 255 and a != 255]
+        extra = [i for i, (a, e) in enumerate(zip(r['a'], sc['expected'])) if e == 0 and a != 0]
+        if (lost or extra) and xf_shown < 3:
+            xf_shown += 1
+            i = (lost or extra)[0]
+            ctx.violation("%s [%s]: %d pixels that the source document paints inside the clip / white mask (at least 1.5 px inside for transformed shapes) lost paint, "
+                          "%d pixels outside kept paint; first pixel (%d,%d): rendered alpha %d, expected %d"
+                          % (sc.get('what', 'transformed %s' % ('clip' if 'clip-path=' in sc['doc'] else 'mask')), "+".join(sc['tags']), len(lost), len(extra),
+                                                                                  i % XS, i // XS, r['a'][i], sc['expected'][i]),
+                          dict(op='c15-xform', doc=sc['doc'], expected=sc['expected'], pixel=i, features=sc['tags']))
+    ctx.cov['transformed_scenes'] = dict(n=len(xf), features=xf_hist)
+
     results = P.run_evals(ctx, evals) if evals else {}
     n_corr = 0
     for name, (rc, out) in sorted(results.items()):
@@ -1133,6 +1316,14 @@ def replay(ctx, path):
         print("rendered / expected alpha (# = 255, . = 0, X = rendered 255 but expected 0, o = rendered 0 but expected 255):")
         for y in range(EX):
             print("".join(('#' if e else '.') if (v == e) else ('X' if v else 'o') for v, e in zip(a[y * EX:(y + 1) * EX], rp['expected'][y * EX:(y + 1) * EX])))
+    elif rp.get('op') == 'c15-xform':
+        print("document:", rp['doc'])
+        out = P.jload(ctx.rvh_batch(binp, 'c15-pix', ["-\t%s\t%d\t%d" % (rp['doc'], XS, XS)])[0])
+        a = out.get('a', [])
+        print("rendered vs expected (# = 255 as expected, . = 0 as expected, ~ = near an edge, not judged, o = LOST paint inside the shape, X = paint outside the shape):")
+        for y in range(XS):
+            print("".join('~' if e < 0 else ('#' if e else '.') if v == e else ('X' if e == 0 else 'o')
+                          for v, e in zip(a[y * XS:(y + 1) * XS], rp['expected'][y * XS:(y + 1) * XS])))
     elif rp.get('op') == 'c15-pix':
         print("document:", rp['doc'])
         out = P.jload(ctx.rvh_batch(binp, 'c15-pix', ["-\t%s\t%d\t%d" % (rp['doc'], 100 if 'width="100"' in rp['doc'] else N, 100 if 'width="100"' in rp['doc'] else N)])[0])
